@@ -95,7 +95,10 @@ def build_traces(ctx, nprog, levels=("2",), seqs=0, nir=None, npat=0):
 
         pats = irpatterns.patterns(random.Random(rng.randrange(1 << 30)), thorough=ctx.tier == "thorough")
         if npat < len(pats):
-            pats = random.Random(rng.randrange(1 << 30)).sample(pats, npat)
+            # control-flow, memory and tail-call shapes always; the algebraic families are sampled
+            keep = [x for x in pats if x[0].split(":")[1] in ("cf", "mem", "tail")]
+            rest = [x for x in pats if x[0].split(":")[1] not in ("cf", "mem", "tail")]
+            pats = keep + random.Random(rng.randrange(1 << 30)).sample(rest, max(0, min(len(rest), npat - len(keep))))
         for key, make, fn, ptys in pats:
             prng = random.Random(sum(ord(ch) * (k + 1) for k, ch in enumerate(key)))
             try:
@@ -104,7 +107,13 @@ def build_traces(ctx, nprog, levels=("2",), seqs=0, nir=None, npat=0):
                 ctx.cov["pattern_build_failed"] = ctx.cov.get("pattern_build_failed", 0) + 1
                 continue
             traces = traces_for(key, make, classes, levels[:1], 0, prng)
-            vecs = int_vectors(ptys, prng, 4 if ctx.tier == "quick" else 8)
+            vecs = int_vectors(ptys, prng, 3 if ctx.tier == "quick" else 8)
+            if len(ptys) == 2:
+                # cover every ordering of the two operands (branches on y < z, y > z, y == z) and both signs
+                for pair in ((0, 1), (1, 0), (2, 2), (-1, 1), (3, -2), (7, 0)):
+                    v = [x if (t_[0] == "i" or x >= 0) else (1 << 8) - 1 + x + 1 if t_ == "u8" else 5 for x, t_ in zip(pair, ptys)]
+                    if v not in vecs:
+                        vecs.append(v)
             out.append({"key": key, "seed": 0, "src": "harness/irpatterns.py pattern " + key, "traces": traces, "fn": fn,
                         "vecs": vecs, "ext": [{"name": "ext_f", "rets": [project_ir.limbs(9, 4)]}]})
     for pi in range(nprog if nir is None else nir):
